@@ -728,6 +728,79 @@ func tablePolicyCalls(repo string) string {
 	return b.String()
 }
 
+// ---------------------------------------------------------------- IndexSites (C18)
+
+var indexDirs = []string{"api", "api/read", "api/render", "acme", "acme/api", "acme/db/nosql", "scep", "scep/api", "authority", "authority/policy",
+	"authority/provisioner", "authority/admin/api", "authority/administrator", "authority/internal/constraints", "policy", "db", "ca", "cas/softcas", "errs"}
+
+// tableIndexSites lists, per function, how many index expressions with a constant integer index it
+// contains (`x[0]`, `certs[0]`, `parts[1]` …): the shape of every out-of-range panic found so far.
+func tableIndexSites(repo string) string {
+	type row struct {
+		loc string
+		n   int
+	}
+	var rows []row
+	for _, dir := range indexDirs {
+		fset := token.NewFileSet()
+		files := parseDir(fset, filepath.Join(repo, dir))
+		for _, fname := range sortedKeys(files) {
+			for _, d := range files[fname].Decls {
+				count := func(root ast.Node) int {
+					n := 0
+					ast.Inspect(root, func(nd ast.Node) bool {
+						if ix, ok := nd.(*ast.IndexExpr); ok {
+							if bl, ok := ix.Index.(*ast.BasicLit); ok && bl.Kind == token.INT {
+								n++
+							}
+						}
+						return true
+					})
+					return n
+				}
+				fd, ok := d.(*ast.FuncDecl)
+				if !ok {
+					// package-level declarations (function literals in `var x = func…`, initialisers):
+					// not inside any FuncDecl, so they get a row of their own instead of being skipped
+					if n := count(d); n > 0 {
+						name := "?"
+						if gd, ok := d.(*ast.GenDecl); ok {
+							for _, sp := range gd.Specs {
+								if vs, ok := sp.(*ast.ValueSpec); ok && len(vs.Names) > 0 && count(vs) > 0 {
+									name = vs.Names[0].Name
+									break
+								}
+							}
+						}
+						rows = append(rows, row{dir + "/" + fname + ":<package-level " + name + ">", n})
+					}
+					continue
+				}
+				if fd.Body == nil {
+					continue
+				}
+				if n := count(fd.Body); n > 0 {
+					rows = append(rows, row{funcKey(dir, fname, fd), n})
+				}
+			}
+		}
+	}
+	var b strings.Builder
+	b.WriteString("-- GENERATED by /verif/extract — do not edit; rewritten on every run\n")
+	b.WriteString("namespace Verif.Generated.IndexSites\n\ndef extractorOk : Bool := true\n\n")
+	b.WriteString("/-- (pkg/file:func, number of index expressions with a constant integer index in that function) -/\n")
+	b.WriteString("def sites : List (String × Nat) := [\n")
+	for i, r := range rows {
+		sep := ","
+		if i == len(rows)-1 {
+			sep = ""
+		}
+		fmt.Fprintf(&b, "  (%s, %d)%s\n", q(r.loc), r.n, sep)
+	}
+	b.WriteString("]\n\nend Verif.Generated.IndexSites\n")
+	return b.String()
+}
+
 func main() {
 	repo := flag.String("repo", "/repo", "path of the smallstep/certificates working tree")
 	table := flag.String("table", "", "Locks | PanicSites | AcmeRoutes")
@@ -743,6 +816,8 @@ func main() {
 		src = tableAcmeRoutes(*repo)
 	case "PolicyCalls":
 		src = tablePolicyCalls(*repo)
+	case "IndexSites":
+		src = tableIndexSites(*repo)
 	default:
 		die("unknown table %q", *table)
 	}
